@@ -70,6 +70,9 @@ def compute_unwindset(repo, crate, names, rules, features=None, log=None):
     p = subprocess.run(cmd, cwd=repo, env=_env(), capture_output=True, text=True)
     if log: log.write("$ " + " ".join(cmd) + "\n" + p.stdout[-2000:] + p.stderr[-3000:])
     ids = {}
+    for rx, k in rules:
+        if rx.startswith("id:"):
+            ids[rx[3:]] = k
     for n in names:
         files = glob.glob(os.path.join(tdir, "kani", "*", "debug", "build", crate, "*", "out", "*%d%s.out" % (len(n), n)))
         files += glob.glob(os.path.join(tdir, "kani", "*", "debug", "deps", "*%d%s.out" % (len(n), n)))
@@ -93,7 +96,7 @@ def compute_unwindset(repo, crate, names, rules, features=None, log=None):
             lid, file_, line, fn = m.group(1), m.group(2), m.group(3), m.group(4)
             text = "%s %s:%s" % (fn, file_, line)
             for rx, k in rules:
-                if not rx.startswith("rec:") and re.search(rx, text):
+                if not rx.startswith("rec:") and not rx.startswith("id:") and re.search(rx, text):
                     ids[lid] = max(ids.get(lid, 0), k) if False else k
                     break
     return ",".join("%s:%d" % (a, b) for a, b in sorted(ids.items()))
